@@ -62,6 +62,10 @@ func c05Scenarios(thorough bool) []*explore.Scenario {
 			}
 		}
 	}
+	// SM: a small sealed segment holds the put of a key whose delete record lands in the compacted segment
+	for i, w := range []explore.Op{op(explore.Delete, "a"), op(explore.Put, "a"), op(explore.Delete, "b")} {
+		scs = append(scs, &explore.Scenario{Name: fmt.Sprintf("CW1-SM-%d", i), Base: "SM", Cfg: "ROLLM", Threads: []explore.ThreadProg{{op(explore.Delete, "a"), op(explore.Compact, "")}, {w}}, Bound: -1, Record: true})
+	}
 	// compaction of a chained index with colliding hashes: promotion must repoint the right slot
 	for i, w := range []explore.Op{op(explore.Put, "o0"), op(explore.Put, "x"), op(explore.Delete, "o1")} {
 		scs = append(scs, &explore.Scenario{Name: fmt.Sprintf("CC-%d", i), Base: "CC", Cfg: "ROLL", Threads: []explore.ThreadProg{{op(explore.Put, "c0"), op(explore.Compact, "")}, {w}}, Bound: 2, Record: false})
